@@ -197,6 +197,10 @@ func runC02(c *core.Ctx, res *core.Result) {
 		return
 	}
 	if c.Idx%8 == 3 {
+		if (c.Idx/8)%4 == 3 {
+			c02ActiveFlush(c, res)
+			return
+		}
 		c02Frozen(c, res)
 		return
 	}
